@@ -431,6 +431,11 @@ CORPUS = [
     "from Reduino.Actuators import Led\nfrom Reduino.Sensors import Button\nled = Led(13)\ndef press():\n    led.toggle()\nb1 = Button(2, on_click=press)\nb2 = Button(3, on_click=press)\nb3 = Button(4, on_click=press)\nwhile True:\n    try:\n        x = 1\n        y = 2\n        z = 3\n    except Exception:\n        w = 4\n    led.toggle()\n",
     "from Reduino.Displays import LCD\nl1 = LCD(rs=12, en=11, d4=5, d5=4, d6=3, d7=2)\nl2 = LCD(i2c_addr=39)\nl1.animate(\"scroll\", 0, \"hello world\")\nl2.animate(\"blink\", 1, \"hi\")\nwhile True:\n    for i in range(3):\n        if i > 1:\n            p = i\n            q = i + 1\n            r = i + 2\n    l1.clear()\n",
     "from Reduino.Communication import SerialMonitor\nmon = SerialMonitor(9600)\ndef f(a, b):\n    if a > b:\n        m = a\n        n = b\n    else:\n        m = b\n        n = a\n    return m - n\nvals = [3, 1, 2]\nvals.append(f(1, 2))\nmon.write(len(vals))\nmon.write(f(2.5, 1))\n",
+    # builtin calls over constants inside folded arguments; names that differ only by leading zeros (sort keys must be injective)
+    "from Reduino.Actuators import Led\nfrom Reduino.Utils import sleep\nled = Led(int(13.0))\nled.blink(int(250.0), times=max(2, 3))\nsleep(abs(-40))\nsleep(min(5, 9) * len('abcd'))\nx = float(3) + int('7')\n",
+    "from Reduino.Sensors import Button\nfrom Reduino.Displays import LCD\nfrom Reduino.Communication import SerialMonitor\nmon = SerialMonitor(9600)\ndef hit():\n    mon.write('c')\nbtn1 = Button(2, on_click=hit)\nbtn01 = Button(3, on_click=hit)\nbtn001 = Button(4, on_click=hit)\nbtn10 = Button(5, on_click=hit)\n"
+    "lcd7 = LCD(i2c_addr=39)\nlcd007 = LCD(i2c_addr=38)\nlcd07 = LCD(rs=12, en=11, d4=5, d5=4, d6=3, d7=2)\nlcd7.animate('scroll', 0, 'aaa')\nlcd007.animate('blink', 0, 'bbb')\nlcd07.animate('bounce', 1, 'ccc')\nwhile True:\n    mon.write(btn1.is_pressed())\n",
+    "from Reduino.Actuators import Led\nxs = [1, 2, 3]\nys = [1, 2, 3]\nxs.append(4)\nled = Led(13)\nled.flash_pattern(ys)\nn = len(xs) + len(ys)\nled.blink(n)\n",
     # rejected scripts that have already touched helper/list/len state when the error is raised: a later call must not see it
     "from Reduino.Communication import SerialMonitor\nmon = SerialMonitor(9600)\nxs = [1, 2, 3]\nname = 'abc'\nk = 1\nmon.write(len(name) + len(xs) + xs[k])\nfor i in range(1, 3):\n    mon.write(i)\n",
     "from Reduino.Communication import SerialMonitor\nmon = SerialMonitor(9600)\nys = [i * 2 for i in range(3)]\nys.append(4)\nmon.write(len(ys))\nys = 5\n",
@@ -462,7 +467,7 @@ def replay_differ(tier, seed, out):
     if tier == "state-only":
         seeds = [0]
     fresh = list(range(n))
-    histories = [fresh, list(reversed(fresh)), fresh + fresh, [2, 2, 5, 2, 0, 3, 1, 4, 2, 5], [6, 0, 7, 3, 8, 2, 6, 1, 7, 4, 8, 5]]
+    histories = [fresh, list(reversed(fresh)), fresh + fresh, [2, 2, 5, 2, 0, 3, 1, 4, 2, 5], [9, 0, 10, 3, 11, 2, 9, 1, 10, 4, 11, 5, 6, 7, 8, 6, 8]]
     ref = {}
     diffs = []
     runs = 0
